@@ -344,6 +344,10 @@ def run(ctx):
     is_app = lambda e: e.kind == 'call' and e.ftext and e.ftext.endswith('.append') and e.loops and e.loops[-1][1] == 0
     loop_paths = [p for p in epaths if any(e.kind == 'loop-iter' for e in p.events)]
     probs = check_reach(loop_paths, is_app, m_enum, lambda F: F['intersects'] if F['bitfield'] else F['equals'], universe=['bitfield', 'intersects', 'equals'], first_only=True)
+    from . import common as _cm7l
+    for nm_, tn_ in _cm7l.lazy_iterator_truth_tests(f_lue):
+        ctx.violation('C07.6', 'enum:no-entry-recognised:%s' % nm_, f_lue.loc(tn_), 'whether any entry applies is asked of `%s`, a lazy iterator (filter / map / generator): it is true even when it '
+                      'will yield nothing, so a value without entries is never labelled (none) / INVALID ENUM VALUE' % nm_)
     if not loop_paths:
         raise AnalysisError('C07.6: look_up_enum no longer scans the entries in a loop of its own: which entries it reports cannot be read off')
     ctx.check(not probs and loop_paths, 'C07.6', 'enum:entry-iff', f_lue.loc(),
